@@ -137,7 +137,11 @@ func c12Whites(r *core.Run, grid int) (ws [][2]float32, skipped int) {
 
 func xyy(w [2]float32) ciexyy.Color { return ciexyy.Color{X: w[0], Y: w[1], YY: 1} }
 
-var c12Colours = [][3]float32{{1, 1, 1}, {0.2, 0.7, 0.1}, {-0.5, 2, 0.3}, {0.9505, 1, 1.089}}
+// colours put through Apply: in and out of range, mixed signs (components summing to zero or
+// having a zero component included), single axes, tiny and large
+var c12Colours = [][3]float32{{1, 1, 1}, {0.2, 0.7, 0.1}, {-0.5, 2, 0.3}, {0.9505, 1, 1.089},
+	{1, -1, 0}, {0, 1, -1}, {0.5, -0.25, -0.25}, {-1, 0, 1}, {1, 0, 0}, {0, 1, 0}, {0, 0, 1}, {0, 0.5, 0.5},
+	{1e-7, 2e-7, 3e-7}, {-1e-5, 1e-5, 0}, {300, 200, 100}, {-2, -3, -4}}
 
 func c12Call[T any](f func() T) (v T, pan any) {
 	defer func() {
@@ -226,10 +230,10 @@ func c12Pair(a, b [2]float32) (kind, msg string, werr, merr float64) {
 	for _, c := range c12Colours {
 		o := xyzVec(caV.Apply(ciexyz.Color{X: c[0], Y: c[1], Z: c[2]}))
 		lin := m.MulV(refcolor.Vec{float64(c[0]), float64(c[1]), float64(c[2])})
+		cmax := math.Max(1, math.Max(math.Abs(float64(c[0])), math.Max(math.Abs(float64(c[1])), math.Abs(float64(c[2])))))
 		for i := 0; i < 3; i++ {
-			if !(math.Abs(o[i]-lin[i]) <= 1e-6*math.Max(1, m.NormInf()*2)) {
-				cc := c
-				_ = cc
+			// float32 arithmetic: the error scales with the size of the colour and of the matrix
+			if !(math.Abs(o[i]-lin[i]) <= 1e-6*cmax*math.Max(1, m.NormInf()*2)) {
 				return "apply-linear", fmt.Sprintf("adaptation %v -> %v: Apply(%v) = %v, matrix times colour = %v", a, b, c, o, lin), werr, merr
 			}
 		}
@@ -295,7 +299,11 @@ func runC12(r *core.Run) {
 	// the first adaptations of the process, from eight goroutines at once, between different pairs
 	{
 		pairs := [][2][2]float32{{c12Illuminants["D65"], c12Illuminants["D50"]}, {c12Illuminants["A"], c12Illuminants["D75"]}, {c12Illuminants["D50"], c12Illuminants["F2"]}, {c12Illuminants["E"], c12Illuminants["C"]}}
-		firstUseBurst(8, strings.Contains(r.Variant, "stagger"), func(g int) {
+		release := func(f func(g int)) { firstUseBurst(8, strings.Contains(r.Variant, "stagger"), f) }
+		if fineStep(r.Variant) > 0 {
+			release = func(f func(g int)) { firstUseFine(8, fineStep(r.Variant), f) }
+		}
+		release(func(g int) {
 			pr := pairs[g%len(pairs)]
 			if kind, msg, _, _ := c12Pair(pr[0], pr[1]); kind != "" {
 				r.Violate("pair", kind+"/first-use", msg+" (among the first adaptations of the process, eight goroutines at once)", c12Case{Kind: kind, Whites: [][2]float32{pr[0], pr[1]}})
@@ -410,10 +418,10 @@ func runC12(r *core.Run) {
 		r.NTCount(nt) // seeded draws; collisions among ~1e5 whites^3 are negligible but not excluded
 	})
 	if r.Variant == "" {
-		for _, v := range burstVariants {
+		for _, v := range append([]string{"warm@2"}, burstVariants...) {
 			r.RunVariantChild(v, 5*time.Minute, false)
 		}
-		r.Obs("fresh_process_variants", burstVariants)
+		r.Obs("fresh_process_variants", append([]string{"warm@2"}, burstVariants...))
 	}
 	ca := ciexyz.AdaptBetweenXYYWhitePoints(ciexyy.D65, ciexyy.D50)
 	r.Sample(map[string]any{"from": "D65", "to": "D50", "matrix_rows": libMat(matrix.Matrix3(ca))})
